@@ -353,3 +353,88 @@ def finish(ctx, level="proof", checker_cmd=None, rule="", trusted=None):
     if not violations:
         print(f"OK property={ctx.prop} tier={ctx.tier} obligations={ndis}/{nob} evaluations={ctx.evaluations} wall={ev['wall_s']}s")
     return 1 if violations else 0
+
+
+# --------------------------------------------------------------------------------------------
+# differential correspondence (hand-written code <-> hand-written Lean model)
+
+IMPL = os.path.join(HBIN, "impl")
+
+
+def run_impl(ctx, lines, timeout=3600):
+    rc, out, err = run([IMPL], inp="\n".join(lines) + "\n", timeout=timeout)
+    if rc != 0:
+        raise RuntimeError(f"harness impl died rc={rc}: " + err[-2000:])
+    return out.splitlines()
+
+
+def canon(resp):
+    """panic messages are kept for the replay only"""
+    return "panic" if resp.startswith("panic") else resp
+
+
+def shrink_request(ctx, req, still_differs, max_steps=200):
+    """Delta-debug the space-separated tokens after the head; returns a minimal request that still differs."""
+    head, *toks = req.split(" ")
+    steps = 0
+    n = 2
+    while len(toks) >= 2 and steps < max_steps:
+        chunk = max(1, len(toks) // n)
+        reduced = False
+        for i in range(0, len(toks), chunk):
+            cand = toks[:i] + toks[i + chunk:]
+            steps += 1
+            if cand and still_differs(" ".join([head] + cand)):
+                toks = cand
+                n = max(n - 1, 2)
+                reduced = True
+                break
+        if not reduced:
+            if chunk == 1:
+                break
+            n = min(n * 2, len(toks))
+    return " ".join([head] + toks)
+
+
+def differential(ctx, reqs, channel, shrink=True, max_report=5, oracle=None):
+    """Run the same requests through the real code and the Lean model; report disagreements (kind
+    'correspondence') and, separately, failures of a property oracle evaluated on the implementation's
+    answers (kind 'oracle'). Returns (impl_lines, model_lines)."""
+    impl = run_impl(ctx, reqs)
+    model = run_driver(ctx, reqs)
+    if len(impl) != len(reqs) or len(model) != len(reqs):
+        ctx.issue(f"correspondence:{channel}:length", "response count differs from request count",
+                  witness={"requests": len(reqs), "impl": len(impl), "model": len(model)})
+        ctx.oblige(f"correspondence:{channel}", False)
+        return impl, model
+    ctx.evaluations += len(reqs)
+    bad = [(r, a, b) for r, a, b in zip(reqs, impl, model) if canon(a) != canon(b)]
+
+    def differs(r):
+        a = run_impl(ctx, [r])
+        b = run_driver(ctx, [r])
+        return len(a) == 1 and len(b) == 1 and canon(a[0]) != canon(b[0])
+
+    for r, a, b in bad[:max_report]:
+        small = shrink_request(ctx, r, differs) if shrink else r
+        a2, b2 = run_impl(ctx, [small])[0], run_driver(ctx, [small])[0]
+        ctx.issue(f"correspondence:{channel}:{small[:120]}", "implementation and Lean model disagree",
+                  witness={"request": small, "implementation": a2, "model": b2, "original_request": r},
+                  found_input=True, kind="correspondence")
+    ctx.oblige(f"correspondence:{channel} ({len(reqs)} requests)", not bad)
+    if oracle is not None:
+        obad = []
+        for r, a in zip(reqs, impl):
+            msg = oracle(r, a)
+            if msg:
+                obad.append((r, a, msg))
+
+        for r, a, msg in obad[:max_report]:
+            small = r
+            if shrink:
+                small = shrink_request(ctx, r, lambda q: bool(oracle(q, run_impl(ctx, [q])[0])))
+            a2 = run_impl(ctx, [small])[0]
+            ctx.issue(f"oracle:{channel}:{small[:120]}", "the property fails on the implementation: " + oracle(small, a2),
+                      witness={"request": small, "implementation": a2}, found_input=True, kind="oracle")
+        ctx.oblige(f"oracle:{channel} ({len(reqs)} requests)", not obad)
+    return impl, model
